@@ -17,6 +17,6 @@ PROP = {
 
 # (category, text, design_ref, technique)
 LEVEL = ("proof",
-         "Lean 4 theorems on the store-footprint model, for every type: same_within, variant_within, optional_payload_within, optional_nil_within, error_union_within (every store of `dst = value` lies inside [0, size dst)), shift_within (hence inside the assigned field), and old_enum_tag_overwide / old_aggregate_copy_overwide documenting the two defects of the pinned tree (8-byte tag store into a 5-byte enum; stride-sized aggregate copies), repaired by fix: 664a588. Every run compiles generated guard-separated struct layouts with the real CLI, reads each writer's stores from the printed Cranelift IR (compared with the model, must lie inside the field), runs the program (field holds the written value, every guard intact after every write) and passes structs of sizes 1..64 by value between guards. Second half of the statement (copies are independent): theorems runFrom_frame, copy_independent, source_unaffected_by_copy_writes, form_irrelevant, set_cells on the CopyLang model; lit_reads_before_writing (an aggregate literal assigned to a variable is built from the OLD values, also of that variable: fix b6e8aaf); every run builds generated copy programs (10 syntactic copy forms incl. two register-returned aggregates alive in one expression x sources that are variables, fields, elements; writes direct, through pointers, in callees; aggregate assignments; literal assignments reading their destination) and compares every printed cell with the model; plus compound assignments of a wider value into a guarded narrow field (rejected, or neighbours intact: fix a70e82e). Partial: literal construction, memset and ABI spills are covered behaviourally only.",
+         "Lean 4 theorems on the store-footprint model, for every type: same_within, variant_within, optional_payload_within, optional_nil_within, error_union_within (every store of `dst = value` lies inside [0, size dst)), shift_within (hence inside the assigned field), and old_enum_tag_overwide / old_aggregate_copy_overwide documenting the two defects of the pinned tree (8-byte tag store into a 5-byte enum; stride-sized aggregate copies), repaired by fix: 664a588. Every run compiles generated guard-separated struct layouts with the real CLI, reads each writer's stores from the printed Cranelift IR (compared with the model, must lie inside the field), runs the program (field holds the written value, every guard intact after every write) and passes structs of sizes 1..64 by value between guards. Second half of the statement (copies are independent): theorems runFrom_frame, copy_independent, source_unaffected_by_copy_writes, form_irrelevant, set_cells on the CopyLang model; lit_reads_before_writing (an aggregate literal assigned to a variable is built from the OLD values, also of that variable: fix b6e8aaf); every run builds generated copy programs (13 syntactic copy forms incl. two register-returned aggregates alive in one expression and mutable copies made through `if` / a block / a labelled `break`, whose copies are written afterwards x sources that are variables, fields, elements; writes direct, through pointers, in callees; aggregate assignments; literal assignments reading their destination) and compares every printed cell with the model; plus aggregates of 3 / 5 / 6 / 7 / 9 / 11 bytes copied whole into a member of a literal written out of declaration order or of a reordering cast, between guard bytes stored earlier; plus compound assignments of a wider value into a guarded narrow field (rejected, or neighbours intact: fix a70e82e). Partial: literal construction, memset and ABI spills are covered behaviourally only.",
          "§4 C02",
          "Lean 4 proof on store footprints + IR-level and behavioural translation validation on generated layouts")
